@@ -13,10 +13,18 @@ def run(ctx):
     d = os.path.join(vlib.WORK, 'c13files_%d' % os.getpid())
     rc, out = vlib.harness_run(['file', ctx['seed'], n, d, deep], timeout=900)
     shutil.rmtree(d, ignore_errors=True)
-    if rc != 0: raise RuntimeError('harness file failed: ' + out[-2000:])
+    crashed = None
+    if rc != 0:
+        begins = [l for l in out.split('\n') if l.startswith('@@BEGIN@@ ')]
+        if not begins: raise RuntimeError('harness file failed: ' + out[-2000:])
+        crashed = begins[-1][len('@@BEGIN@@ '):]
+    out = '\n'.join(l for l in out.split('\n') if not l.startswith('@@BEGIN@@ ') and not (crashed and (l.startswith("thread '") or l.startswith('fatal runtime error') or 'overflowed its stack' in l)))
     F = [c[2:].rstrip('\n') for c in out.split('@@CASE@@ ')[1:] if c[0] == 'F']
-    fv = vlib.run_shards('C13', IMPORTS, 'fcase', 'file_verdict', F, per_shard=max(4, len(F) // 16 + 1))
+    fv = vlib.run_shards('C13', IMPORTS, 'fcase', 'file_verdict', F, per_shard=max(4, len(F) // 16 + 1)) if F else []
     failures = []
+    if crashed:
+        failures.append({'clause': 'call_returns', 'key': 'crash', 'what': 'the process died inside the call (exit status %s): %s' % (rc, crashed),
+                         'how': 'a one-child chain of that depth saved through that form on a thread with that stack size; Scad::save runs on the calling thread'})
     for case, v in zip(F, fv):
         diff, oracle, diff_fmt = v
         if oracle != 0:
